@@ -36,6 +36,7 @@ type c14Scenario struct {
 	ChanCap  int      `json:"chan_cap"`
 	Flush    string   `json:"flush_interval"`
 	PauseMax string   `json:"producer_pause_below,omitempty"`
+	OutStall string   `json:"output_stall,omitempty"`
 	Samples  []string `json:"sample_values,omitempty"`
 }
 
@@ -369,6 +370,14 @@ func runC14(t *testing.T, c simrt.Chooser, o Opts) *Out {
 		pauseMax = p.dur("pausemax", time.Microsecond, 3*flush)
 		sc.PauseMax = pauseMax.String()
 	}
+	// a slow output (every k-th write stalls for several flush intervals): the flush ticker fires
+	// while a write is in progress
+	stallEvery, stallFor := 0, time.Duration(0)
+	if p.pct("outstall", 30) {
+		stallEvery = 1 + p.n("stallevery", 3)
+		stallFor = p.dur("stallfor", flush/2, 4*flush)
+		sc.OutStall = fmt.Sprintf("every %d writes for %v", stallEvery, stallFor)
+	}
 	// identity pool so that ids repeat in arbitrary patterns
 	var pool []string
 	for i := p.n("npool", 5); i > 0; i-- {
@@ -376,7 +385,29 @@ func runC14(t *testing.T, c simrt.Chooser, o Opts) *Out {
 	}
 	var results []scan.Result
 	var exps []c14Expect
-	for i := 0; i < sc.Results; i++ {
+	bigPopulation := o.Tier == "thorough" && o.Index == 0
+	if bigPopulation {
+		// de-duplication over a large population: every host of 10.0.0.0/14 once, in order, with a
+		// repeat of an earlier host after every eighth one
+		sc.Type, sc.Unique, sc.ChanCap, sc.Results = "arp", true, 1000, 0
+		pauseMax, stallEvery, stallFor = 0, 0, 0
+		sc.PauseMax, sc.OutStall = "", ""
+		mk := func(a uint32) {
+			r := &arp.ScanResult{IP: ipStr(a), MAC: "02:00:00:00:00:01", Vendor: ""}
+			results = append(results, r)
+			exps = append(exps, c14Expect{id: r.IP, desc: r.IP, check: func(m map[string]interface{}) string { return strField(m, "ip", r.IP) }})
+		}
+		base := ipU32("10.0.0.0")
+		for i := uint32(0); i < 1<<18; i++ {
+			mk(base + i)
+			if i%8 == 7 {
+				mk(base + i/2)
+			}
+		}
+		sc.Results = len(results)
+		sc.Samples = []string{"every host of 10.0.0.0/14 + repeats"}
+	}
+	for i := 0; i < sc.Results && !bigPopulation; i++ {
 		typ := sc.Type
 		if mixed {
 			typ = c14Types[p.n("mtype", len(c14Types))]
@@ -391,8 +422,13 @@ func runC14(t *testing.T, c simrt.Chooser, o Opts) *Out {
 	out := &Out{Scenario: sc, Stats: map[string]int{"type:" + sc.Type: 1, "results": sc.Results}}
 	var iow *simio.World
 	done := false
-	res := simrt.Execute(t, simrt.Config{Chooser: c, Trace: o.Trace, MaxSteps: 300_000}, func(r *simrt.Run) {
+	maxSteps := 300_000
+	if bigPopulation {
+		maxSteps = 40_000_000
+	}
+	res := simrt.Execute(t, simrt.Config{Chooser: c, Trace: o.Trace, MaxSteps: maxSteps, NoPreempt: bigPopulation}, func(r *simrt.Run) {
 		iow = simio.Install(r)
+		iow.StallEvery, iow.StallFor = stallEvery, stallFor
 	}, func(r *simrt.Run) {
 		ctx, cancel := context.WithCancel(context.Background())
 		defer cancel()
@@ -445,6 +481,9 @@ func runC14(t *testing.T, c simrt.Chooser, o Opts) *Out {
 	}
 	if sc.Unique && len(want) < len(exps) {
 		simrtProbe(&res, "duplicate-suppressed")
+	}
+	if bigPopulation {
+		simrtProbe(&res, "dedup-262144-hosts")
 	}
 	stdout := iow.OutBytes()
 	lines, complete := stdoutLines(stdout)
